@@ -543,7 +543,8 @@ class Job:
                 self._statepoint_requires_init = False
             self.statepoint.reset(new_statepoint)
 
-        self._project._register(self.id, new_statepoint)
+        # Register a copy: new_statepoint (and its nested values) belong to the caller.
+        self._project._register(self.id, self.statepoint())
 
     @property
     def sp(self):
